@@ -25,7 +25,7 @@ Ints18 == { DD(FALSE, <<>>, 0), DD(FALSE, <<1>>, 0), DD(TRUE, <<1>>, 0), DD(FALS
             DD(TRUE, <<2,1,4,7,4,8,3,6,4,8>>, 0), DD(FALSE, <<9,0,0,7,1,9,9,2,5,4,7,4,0,9,9,1>>, 0), DD(TRUE, <<9,0,0,7,1,9,9,2,5,4,7,4,0,9,9,1>>, 0),
             DD(FALSE, <<1,2,3,4,5,6,7,8,9>>, 0), DD(FALSE, <<1,5>>, -1), DD(TRUE, <<2,7>>, -1) }
 Texts == { <<49,50>>, <<45,49,46,53>>, <<49,101,51>>, <<48,48,55>>, <<97,98,99>>, <<>>, <<49,120>>, <<46,53>>, <<53,46>>, <<45,48>>, <<49,50,51,46,52,53,54,101,45,50>>,
-           <<45>>, <<43>>, <<105,110>>, <<110,97>>, <<105>>, <<105,110,102,105,110,105,116>>, <<45,105,110>>, <<32>>, <<49,32>> }
+           <<49,101,43,53>>, <<49,69,43,49,53>>, <<50,46,53,101,43,49,48>>, <<45>>, <<43>>, <<105,110>>, <<110,97>>, <<105>>, <<105,110,102,105,110,105,116>>, <<45,105,110>>, <<32>>, <<49,32>> }
 
 \* whole numbers that carry fractional zeros (computed: 0.5 * 4 = 2.0, 1.25 * 4 = 5.00, 2.5 - 0.5, -1.5 * 2)
 Scaled18 == { <<"Bin", "*", Lt(DD(FALSE, <<5>>, -1)), Lt(DD(FALSE, <<4>>, 0))>>, <<"Bin", "*", Lt(DD(FALSE, <<1,2,5>>, -2)), Lt(DD(FALSE, <<4>>, 0))>>,
